@@ -61,13 +61,17 @@ def _k1_alphabet() -> str:
     return ob.case().get('alphabet', K1_ALPHABET)
 
 
+K1_CLASSES = (('ord', 'a@#\\'), ('sp', ' '), ('nl', '\n'), ('dq', '"'), ('sq', "'"))  # shlex's character classes
+
+
 def _pre_k1(s: str) -> bool:
     c = ob.case()
     if len(s) != c['len'] or not _in_alphabet(s, _k1_alphabet()):
         return False
-    first = c.get('first')
-    if first is not None and s[:1] != first:
-        return False
+    prefix = c.get('prefix', ())  # the first characters' classes (case split)
+    for i in range(len(prefix)):
+        if s[i] not in prefix[i]:
+            return False
     if ob.excluded(REGION_HASH) and ref.has_unquoted(s, '#'):
         return False
     if ob.excluded(REGION_USPACE) and '\xa0' in s:
@@ -163,17 +167,18 @@ def k1_tokens(s: str) -> bool:
 
 
 def _k1_obligations(tier: str) -> List[Ob]:
+    import itertools
     obs = []
     maxlen = 4 if tier == 'quick' else 5
-    split_from = 4
     for n in range(0, maxlen + 1):
-        firsts = [None] if n < split_from else list(K1_ALPHABET)
-        for f in firsts:
+        nsplit = 0 if n < 4 else n - 3  # case split on the classes of the first n-3 characters
+        for combo in itertools.product(K1_CLASSES, repeat=nsplit):
             obs.append(Ob(
-                name='K1:len%d%s' % (n, '' if f is None else '-first-%s' % _chname(f)),
-                fn='k1_tokens', case=dict(len=n, first=f), kernel='K1',
+                name='K1:len%d%s' % (n, ''.join('-' + nm for nm, _ in combo)),
+                fn='k1_tokens', case=dict(len=n, prefix=tuple(al for _, al in combo)), kernel='K1',
                 bound='every source text of exactly %d characters over {a, @, space, ", \', #, newline, backslash}%s: '
-                      'all tokens consumed until null / syntax error' % (n, '' if f is None else ' starting with %r' % f),
+                      'all tokens consumed until null / syntax error' % (
+                          n, ''.join(', character %d in %r' % (i + 1, al) for i, (_, al) in enumerate(combo))),
                 timeout=600, real=REAL_K1, stubs=(STUB_IO,),
                 outside=('characters outside the stated alphabet (tab, CR and other separators; other letters are '
                          'equivalent to `a` for the tokenizer only by inspection of shlex)',),
@@ -195,6 +200,73 @@ def _chname(c: str) -> str:
             '\xa0': 'nbsp'}.get(c, 'u%04x' % ord(c))
 
 
+# =========================================================================== masks
+
+# A bounded family of texts is given by a MASK: a string of the same length as the text in which
+# every character is either itself (pinned) or one of the hole markers below (the character at that
+# position ranges over the hole's alphabet).  One symbolic str per text; structure (quotes, line
+# ends, separators) is data, not case, wherever a hole's alphabet contains those characters.
+HOLES = {
+    '?': 'a@ "\'#\n\\',  # K1 alphabet
+    '%': 'a@[]_-',  # reference syntax
+    '~': ' \n',  # separators
+    '^': 'a "\'\n=',  # string characters, quotes, separators, a reserved word
+    '&': 'a@]"\' ',  # inside / around a reference in a quoted token
+    '$': 'aE \n#[\'"',  # here-document body
+    '!': 'a \\\n)"',  # list syntax
+    '*': 'a "\'#@ ',  # text until end of line
+}
+HOLE_NAMES = {
+    '?': '{a, @, space, ", \', #, newline, backslash}',
+    '%': '{a, @, [, ], _, -}',
+    '~': '{space, newline}',
+    '^': '{a, space, ", \', newline, =}',
+    '&': '{a, @, ], ", \', space}',
+    '$': '{a, E, space, newline, #, [, \', "}',
+    '!': '{a, space, backslash, newline, ), "}',
+    '*': '{a, space, ", \', #, @}',
+}
+
+
+def _mask_ok(s: str, mask: str) -> bool:
+    if len(s) != len(mask):
+        return False
+    for i in range(len(mask)):
+        m = mask[i]
+        al = HOLES.get(m)
+        if al is None:
+            if s[i] != m:
+                return False
+        elif s[i] not in al:
+            return False
+    return True
+
+
+def _mask_bound(mask: str) -> str:
+    used = [h for h in HOLES if h in mask]
+    return 'every text matching the mask %r where %s' % (
+        mask, '; '.join('%s ranges over %s' % (h, HOLE_NAMES[h]) for h in used) if used else 'nothing is free')
+
+
+def _mask_name(mask: str) -> str:
+    """a file-name / glob safe rendering (holes -> x, " -> D, ' -> H, space -> _, newline -> ., backslash -> B)"""
+    r = ''
+    m = mask.replace('@[', 'r').replace(']@', '')
+    for c in m:
+        if c in HOLES:
+            r += 'x'
+        elif c.isalnum():
+            r += c
+        else:
+            r += {'"': 'D', "'": 'H', ' ': '_', '\n': '.', '\\': 'B', '<': 'l', '>': 'g', ':': 'c', ')': 'p',
+                  '=': 'e'}.get(c, '-')
+    return r
+
+
+def _numbered(prefix: str, masks):
+    return [('%s%02d-%s' % (prefix, i + 1, _mask_name(m) or 'empty'), m) for i, m in enumerate(masks)]
+
+
 # =========================================================================== K2  symbol-reference fragments
 
 REAL_K2 = (
@@ -203,25 +275,43 @@ REAL_K2 = (
     'exactly_lib.symbol.symbol_syntax._find_symbol_reference',
     'exactly_lib.symbol.symbol_syntax._extract_symbol_name',
     'exactly_lib.symbol.symbol_syntax._is_identifier',
+)
+REAL_K2F = (
+    'exactly_lib.symbol.symbol_syntax.split',
     'exactly_lib.symbol.symbol_syntax.is_symbol_name',
     'exactly_lib.symbol.symbol_syntax.parse_symbol_reference__from_str',
     'exactly_lib.symbol.symbol_syntax.parse_maybe_symbol_reference',
     'exactly_lib.impls.types.string_.parse_string.parse_fragments_from_token',
     'exactly_lib.impls.types.string_.parse_string.parse_sym_ref_or_fragments_from_token',
+    'exactly_lib.impls.types.string_.parse_string._is_single_sym_ref',
     'exactly_lib.util.parse.token.Token',
 )
 
-K2_ALPHABET = '@[]a_-'
 K2_ALPHABET_U = '@[]\xe9 1'
 
 
 def _pre_k2(s: str) -> bool:
     c = ob.case()
-    return len(s) == c['len'] and _in_alphabet(s, c.get('alphabet', K2_ALPHABET))
+    if 'mask' in c:
+        return _mask_ok(s, c['mask'])
+    return len(s) == c['len'] and _in_alphabet(s, c['alphabet'])
 
 
 def _frag_list(frs):
     return [(bool(f.is_symbol), f.value) for f in frs]
+
+
+def k2_split(s: str) -> bool:
+    """
+    pre: _pre_k2(s)
+    post: _
+    """
+    from exactly_lib.symbol import symbol_syntax
+    want = ref.split_refs(s)
+    if ob.case().get('oracle_bug'):
+        # seeded oracle error: `-` may be part of a symbol name
+        want = [(True, '-')] if s == '@[-]@' else want
+    return ob.post(_frag_list(symbol_syntax.split(s)) == want)
 
 
 def _whole_reference(s: str):
@@ -236,7 +326,7 @@ def _whole_reference(s: str):
     return False, None
 
 
-def _k2_check(s: str) -> bool:
+def _k2_forms_check(s: str) -> bool:
     from exactly_lib.symbol import symbol_syntax
     from exactly_lib.impls.types.string_ import parse_string
     from exactly_lib.section_document.element_parsers.instruction_parser_exceptions import \
@@ -244,31 +334,16 @@ def _k2_check(s: str) -> bool:
     from exactly_lib.util.parse.token import Token, TokenType
     bug = bool(ob.case().get('oracle_bug'))
     want = ref.split_refs(s)
-    if bug:
-        # seeded oracle error: a reference with an empty name is a reference
-        want = [(True, '')] if s == '@[]@' else want
-    got = _frag_list(symbol_syntax.split(s))
-    if got != want:
-        return False
-    # properties of the fragmentation, stated without the reference splitter
-    if ref.render_refs(got) != s:
-        return False
-    prev_const = False
-    for is_sym, t in got:
-        if is_sym:
-            if not symbol_syntax.is_symbol_name(t):
-                return False
-            prev_const = False
-        else:
-            if t == '' or prev_const:
-                return False
-            prev_const = True
-    # the three token forms
+    # the three token forms: hard quotes protect, the others are split
     naked = _frag_list(parse_string.parse_fragments_from_token(Token(TokenType.PLAIN, s, s)))
     soft = _frag_list(parse_string.parse_fragments_from_token(Token(TokenType.QUOTED, s, '"' + s + '"')))
     hard = _frag_list(parse_string.parse_fragments_from_token(Token(TokenType.QUOTED, s, "'" + s + "'")))
-    if naked != want or soft != want or hard != [(False, s)]:
+    want_hard = want if bug else [(False, s)]  # seeded oracle error: hard quotes do not protect
+    if naked != want or soft != want or hard != want_hard:
         return False
+    for is_sym, t in want:
+        if is_sym and not symbol_syntax.is_symbol_name(t):
+            return False
     # a token that is one naked reference is reported as the symbol's name
     e = parse_string.parse_sym_ref_or_fragments_from_token(Token(TokenType.PLAIN, s, s))
     single = len(want) == 1 and want[0][0]
@@ -284,8 +359,7 @@ def _k2_check(s: str) -> bool:
         return False
     # whole-token reference syntax
     is_ref, name = _whole_reference(s)
-    mb = symbol_syntax.parse_maybe_symbol_reference(s)
-    if mb != (name if is_ref else None):
+    if symbol_syntax.parse_maybe_symbol_reference(s) != (name if is_ref else None):
         return False
     try:
         r = symbol_syntax.parse_symbol_reference__from_str(s)
@@ -300,30 +374,600 @@ def _k2_check(s: str) -> bool:
     return True
 
 
-def k2_split(s: str) -> bool:
+def k2_forms(s: str) -> bool:
     """
     pre: _pre_k2(s)
     post: _
     """
-    return ob.post(_k2_check(s))
+    return ob.post(_k2_forms_check(s))
 
 
 def _k2_obligations(tier: str) -> List[Ob]:
     obs = []
-    maxlen = 6 if tier == 'quick' else 7
-    for n in range(0, maxlen + 1):
+    masks = ['', '%', '%%', '%%%', '%%%%', '%%%%%',
+             '%@[%]@%', '@[%]@%@[%]@', '@[a]@%%@[a]@', '@[%%]@%']
+    if tier == 'thorough':
+        masks += ['%%%%%%', '%%%%%%%', '@[%%@[%%]@', '%@[%%]@%%', '@[%]@[%]@%', '%%@[a]@%%']
+    for nm, m in _numbered('K2:split:', masks):
         obs.append(Ob(
-            name='K2:len%d' % n, fn='k2_split', case=dict(len=n), kernel='K2',
-            bound='every token text of exactly %d characters over {@, [, ], a, _, -}' % n,
-            timeout=600, real=REAL_K2, entry='symbol_syntax.split / parse_string.parse_fragments_from_token'))
-    for n in range(4, (6 if tier == 'quick' else 7) + 1):
+            name=nm, fn='k2_split', case=dict(mask=m), kernel='K2',
+            bound=_mask_bound(m), timeout=900 if len(m) < 7 else 2400, real=REAL_K2, entry='symbol_syntax.split'))
+    umasks = [4, 5] if tier == 'quick' else [4, 5, 6]
+    for n in umasks:
         obs.append(Ob(
-            name='K2:u-len%d' % n, fn='k2_split', case=dict(len=n, alphabet=K2_ALPHABET_U), kernel='K2',
+            name='K2:split:u-len%d' % n, fn='k2_split', case=dict(len=n, alphabet=K2_ALPHABET_U), kernel='K2',
             bound='every token text of exactly %d characters over {@, [, ], e-acute, space, 1}' % n,
-            timeout=600, real=REAL_K2, entry='symbol_syntax.split / parse_string.parse_fragments_from_token'))
-    obs.append(Ob(name='K2:seeded-oracle-error', fn='k2_split', case=dict(len=4, oracle_bug=True), kernel='K2',
-                  bound='seeded oracle error: `@[]@` is a reference with an empty name', timeout=300,
+            timeout=900, real=REAL_K2, entry='symbol_syntax.split'))
+    fmasks = ['', '%', '%%', '%%%', '%%%%', '@[%]@', '@[%%]@', '%@[a]@', '@[a]@%']
+    if tier == 'thorough':
+        fmasks += ['%%%%%', '@[%%%]@', '%@[%]@%']
+    for nm, m in _numbered('K2:forms:', fmasks):
+        obs.append(Ob(
+            name=nm, fn='k2_forms', case=dict(mask=m), kernel='K2',
+            bound=_mask_bound(m) + '; as naked, soft-quoted and hard-quoted token', timeout=900, real=REAL_K2F,
+            entry='parse_string.parse_fragments_from_token'))
+    obs.append(Ob(name='K2:split:seeded-oracle-error', fn='k2_split', case=dict(mask='@[%]@', oracle_bug=True),
+                  kernel='K2', bound='seeded oracle error: `-` may be part of a symbol name', timeout=300,
                   expect=ob.REFUTE, real=REAL_K2))
+    obs.append(Ob(name='K2:forms:seeded-oracle-error', fn='k2_forms', case=dict(mask='@[%]@', oracle_bug=True),
+                  kernel='K2', bound='seeded oracle error: hard quotes do not protect references', timeout=300,
+                  expect=ob.REFUTE, real=REAL_K2F))
+    return obs
+
+
+# =========================================================================== symbols shared by K3-K5
+
+def _symbol_table(va: str, vb: str):
+    """A, B: string symbols with values va, vb;  L: list symbol [va, vb]"""
+    from exactly_lib.symbol.sdv_structure import SymbolContainer
+    from exactly_lib.symbol.value_type import ValueType
+    from exactly_lib.type_val_deps.types.list_ import list_sdvs
+    from exactly_lib.type_val_deps.types.string_ import string_sdvs
+    from exactly_lib.util.symbol_table import SymbolTable
+    return SymbolTable({
+        'A': SymbolContainer(string_sdvs.str_constant(va), ValueType.STRING, None),
+        'B': SymbolContainer(string_sdvs.str_constant(vb), ValueType.STRING, None),
+        'L': SymbolContainer(list_sdvs.from_str_constants([va, vb]), ValueType.LIST, None),
+    })
+
+
+def _string_values(va: str, vb: str):
+    """symbol name -> the string a reference in a string context denotes"""
+    return {'A': va, 'B': vb, 'L': va + ' ' + vb}
+
+
+def _names_defined(names) -> bool:
+    for n in names:
+        if n != 'A' and n != 'B' and n != 'L':
+            return False
+    return True
+
+
+def _ref_names_of_parts(parts, soft_protects: bool = False):
+    names = []
+    for form, c in parts:
+        if form == ref.HARD or (soft_protects and form == ref.SOFT):
+            continue
+        for is_sym, t in ref.split_refs(c):
+            if is_sym:
+                names.append(t)
+    return names
+
+
+def _ref_names_of_text(text: str):
+    return [t for is_sym, t in ref.split_refs(text) if is_sym]
+
+
+def _values_ok(va: str, vb: str) -> bool:
+    return len(va) <= 2 and len(vb) <= 2
+
+
+def _after_token_ok(ts, s: str, toks, err, k: int, end_prev: int) -> bool:
+    """The stream stands after a token that ended at end_prev; the k-th reference token (or the
+    end / the syntax error) must be what follows: nothing swallowed, nothing split."""
+    from exactly_lib.section_document.element_parsers.token_stream import LookAheadState
+    pos = ts.position
+    if pos < end_prev or '\n' in s[end_prev:pos]:
+        return False
+    if ts.remaining_source != s[pos:]:
+        return False
+    st = ts.look_ahead_state
+    if k < len(toks):
+        t = toks[k]
+        if st is not LookAheadState.HAS_TOKEN or pos > t.start:
+            return False
+        h = ts.head
+        return h.string == t.string and h.source_string == s[t.start:t.end]
+    if err is None:
+        return st is LookAheadState.NULL
+    return st is LookAheadState.SYNTAX_ERROR and pos <= err
+
+
+def _is_reserved_word_token(t) -> bool:
+    return len(t.parts) == 1 and t.parts[0][0] == ref.NAKED and t.parts[0][1] in ref.RESERVED
+
+
+# =========================================================================== K3  denotation
+
+REAL_K3 = (
+    'exactly_lib.impls.types.string_.parse_string.parse_string_from_token_parser',
+    'exactly_lib.impls.types.string_.parse_string.parse_string_sdv',
+    'exactly_lib.impls.types.string_.parse_string.parse_fragments_from_tokens__w_is_plain',
+    'exactly_lib.impls.types.string_.parse_string.parse_fragments_from_token',
+    'exactly_lib.impls.types.string_.parse_string.string_sdv_from_fragments',
+    'exactly_lib.impls.types.string_.parse_string.fragment_sdv_from_fragment',
+    'exactly_lib.impls.types.string_.parse_string.SymbolReferenceOrStringParser.parse',
+    'exactly_lib.impls.types.string_.parse_rich_string.RichStringParser.parse_from_token_parser',
+    'exactly_lib.impls.types.string_.parse_rich_string.SymbolNameOrStringRichStringParser.parse_from_token_parser',
+    'exactly_lib.symbol.symbol_syntax.split',
+    'exactly_lib.section_document.element_parsers.misc_utils.new_token_stream',
+    'exactly_lib.section_document.element_parsers.token_stream_parser.new_token_parser',
+    'exactly_lib.section_document.element_parsers.token_stream.TokenStream.consume',
+    'exactly_lib.util.parse.token.Token',
+    'exactly_lib.definitions.test_case.reserved_words',
+    'exactly_lib.type_val_deps.types.string_.string_sdv.StringSdv.resolve',
+    'exactly_lib.type_val_deps.types.string_.string_sdv_impls.SymbolStringFragmentSdv.resolve',
+    'exactly_lib.type_val_deps.types.string_.string_ddv.StringDdv.value_when_no_dir_dependencies',
+)
+
+
+def _pre_text(s: str, va: str, vb: str) -> bool:
+    c = ob.case()
+    if not _mask_ok(s, c['mask']) or not _values_ok(va, vb):
+        return False
+    if ob.excluded(REGION_HASH) and ref.has_unquoted(s, '#'):
+        return False
+    return True
+
+
+def _pre_k3(s: str, va: str, vb: str) -> bool:
+    if not _pre_text(s, va, vb):
+        return False
+    toks, err = ref.tokenize(s)
+    if len(toks) > 0:
+        parts = toks[0].parts
+        # a reference that is split over two adjacent fragments: outside the claim (undocumented)
+        if ref.reference_straddles(parts):
+            return False
+        if ob.excluded(REGION_MIXED) and ref.is_mixed_hard(parts) and ref.n_refs(toks[0].string) > 0:
+            return False
+    return True
+
+
+def _k3_check(s: str, va: str, vb: str) -> bool:
+    from exactly_lib.impls.types.string_ import parse_string, parse_rich_string
+    from exactly_lib.section_document.element_parsers.instruction_parser_exceptions import \
+        SingleInstructionInvalidArgumentException
+    from exactly_lib.section_document.element_parsers.token_stream_parser import new_token_parser
+    c = ob.case()
+    bug = bool(c.get('oracle_bug'))
+    toks, err = ref.tokenize(s)
+    tp = new_token_parser(s)
+    ts = tp.token_stream
+    entry = c.get('entry', 'string')
+    want_error = len(toks) == 0 or _is_reserved_word_token(toks[0])
+    try:
+        if entry == 'string':
+            sdv = parse_string.parse_string_from_token_parser(tp)
+        elif entry == 'rich':
+            sdv = parse_rich_string.RichStringParser().parse_from_token_parser(tp)
+        else:
+            e = parse_string.SymbolReferenceOrStringParser(parse_string.DEFAULT_CONFIGURATION).parse(tp)
+            t0 = toks[0] if toks else None
+            single = (t0 is not None and len(t0.parts) == 1 and t0.parts[0][0] == ref.NAKED
+                      and len(ref.split_refs(t0.parts[0][1])) == 1 and ref.split_refs(t0.parts[0][1])[0][0])
+            if e.is_left() != bool(single):
+                return False
+            if e.is_left():
+                if e.left() != t0.parts[0][1][2:len(t0.parts[0][1]) - 2]:
+                    return False
+                return _after_token_ok(ts, s, toks, err, 1, t0.end)
+            sdv = e.right()
+    except SingleInstructionInvalidArgumentException:
+        # no string (end of text, unterminated quote) or an unquoted reserved word: a syntax error
+        return want_error
+    if want_error:
+        return False
+    t0 = toks[0]
+    names = _ref_names_of_parts(t0.parts, soft_protects=bug)  # seeded oracle error: soft quotes protect too
+    if [r.name for r in sdv.references] != names:
+        return False
+    if not _after_token_ok(ts, s, toks, err, 1, t0.end):
+        return False
+    if _names_defined(names):
+        got = sdv.resolve(_symbol_table(va, vb)).value_when_no_dir_dependencies()
+        want = ref.denotation(t0.parts, _string_values(va, vb)) if not bug else None
+        if not bug and got != want:
+            return False
+    return True
+
+
+def k3_denote(s: str, va: str, vb: str) -> bool:
+    """
+    pre: _pre_k3(s, va, vb)
+    post: _
+    """
+    _install_io()
+    return ob.post(_k3_check(s, va, vb))
+
+
+K3_OUTSIDE = ('tokens in which a symbol reference is split over two adjacent fragments (e.g. `@[A"]@"`): undocumented',
+              'symbols of type path; symbol values longer than 2 characters (values are only concatenated)')
+
+
+def _k3_masks(tier: str):
+    q = [
+        # one fragment of each form, holes inside and a following token
+        '^^^ ^', '"^^" ^', "'^^' ^", '^^^^',
+        # references in each form, with neighbours
+        '&@[A]@& a', '"&@[A]@&" a', "'&@[A]@&' a",
+        # adjacent fragments of different forms (quote characters pinned, contents free)
+        'a"^"^ ^', '"^"^\'^\'', "'^'\"^\"^", '^\'^\'"^"',
+        '@[A]@"&@[B]@"&', '"@[A]@"&@[B]@&', "'@[A]@'&\"@[B]@\"", "&'@[A]@'@[B]@",
+        'a&@[A]@\'&\' a', '"&"@[A]@\'&@[B]@\'',
+    ]
+    t = [
+        '^^^^^', '"^^^" ^', "'^^^' ^", '^^"^^"^', "^^'^^'^",
+        '&&@[A]@&& a', '"&@[A]@&@[B]@&"', '@[A]@&@[B]@& a',
+        '^"^"\'^\'^ ^', "'^'^\"^\"'^'", '"@[A]@"&&\'@[B]@\'&', "&'@[A]@'&\"@[B]@\"&",
+    ]
+    return q + (t if tier == 'thorough' else [])
+
+
+def _k3_obligations(tier: str) -> List[Ob]:
+    obs = []
+    for nm, m in _numbered('K3:', _k3_masks(tier)):
+        obs.append(Ob(
+            name=nm, fn='k3_denote', case=dict(mask=m), kernel='K3',
+            bound=_mask_bound(m) + '; values of the symbols A, B: every string of <= 2 characters',
+            timeout=900, real=REAL_K3, stubs=(STUB_IO,), outside=K3_OUTSIDE,
+            entry='parse_string.parse_string_from_token_parser(new_token_parser(source))'))
+    for i, (entry, m) in enumerate((('rich', '"&@[A]@&"a ^'), ('rich', "^'^'@[A]@ ^"), ('either', '@[A]@& ^'),
+                                    ('either', '"@[A]@"^^'), ('either', '&@[A]@ ^'))):
+        obs.append(Ob(
+            name='K3:%s%d-%s' % (entry, i + 1, _mask_name(m)), fn='k3_denote', case=dict(mask=m, entry=entry), kernel='K3',
+            bound=_mask_bound(m) + '; values of the symbols A, B: every string of <= 2 characters',
+            timeout=900, real=REAL_K3, stubs=(STUB_IO,), outside=K3_OUTSIDE,
+            entry='RichStringParser / SymbolReferenceOrStringParser on new_token_parser(source)'))
+    obs.append(Ob(name='K3:seeded-oracle-error', fn='k3_denote', case=dict(mask='"@[A]@"&', oracle_bug=True),
+                  kernel='K3', bound='seeded oracle error: soft quotes protect references too', timeout=300,
+                  expect=ob.REFUTE, real=REAL_K3, stubs=(STUB_IO,)))
+    return obs
+
+
+# =========================================================================== K4  here-document
+
+REAL_K4 = (
+    'exactly_lib.impls.types.string_.parse_rich_string.RichStringParser.parse_from_token_parser',
+    'exactly_lib.impls.types.string_.parse_rich_string.SymbolNameOrStringRichStringParser.parse_from_token_parser',
+    'exactly_lib.impls.types.string_.parse_rich_string.HereDocParser.parse_from_token_parser',
+    'exactly_lib.impls.types.string_.parse_rich_string.HereDocParser._parse_from_start_str',
+    'exactly_lib.impls.types.string_.parse_rich_string.HereDocParser._parse_contents',
+    'exactly_lib.impls.types.string_.parse_rich_string._sdv_from_lines',
+    'exactly_lib.impls.types.string_.parse_string.string_sdv_from_string',
+    'exactly_lib.definitions.primitives.string',
+    'exactly_lib.util.str_.misc_formatting.lines_content',
+    'exactly_lib.section_document.element_parsers.token_stream.TokenStream._consume_remaining_part_of_current_line',
+    'exactly_lib.section_document.element_parsers.token_stream.TokenStream.consume',
+    'exactly_lib.section_document.element_parsers.token_stream_parser.TokenParser.report_superfluous_arguments_if_not_at_eol',
+    'exactly_lib.section_document.element_parsers.token_stream_parser.TokenParser.has_current_line',
+    'exactly_lib.section_document.element_parsers.token_stream_parser.TokenParser.require_has_valid_head_token',
+)
+
+K4_MARKER = 'E'
+K4_START = '<<E'
+
+
+def _pre_k4(s: str, va: str, vb: str) -> bool:
+    c = ob.case()
+    if not _mask_ok(s, c['mask']) or not _values_ok(va, vb):
+        return False
+    # region: a `#` outside quotes on the line of the start marker
+    if ob.excluded(REGION_HASH) and ref.has_unquoted(s[:_line_end(s, 0)], '#'):
+        return False
+    return True
+
+
+def _k4_check(s: str, va: str, vb: str) -> bool:
+    from exactly_lib.impls.types.string_ import parse_rich_string
+    from exactly_lib.section_document.element_parsers.instruction_parser_exceptions import \
+        SingleInstructionInvalidArgumentException
+    from exactly_lib.section_document.element_parsers.token_stream_parser import new_token_parser
+    bug = bool(ob.case().get('oracle_bug'))
+    # --- documented reading: `<<E` alone on its line, then lines until the first line equal to `E`
+    e0 = _line_end(s, 0)
+    first = s[:e0]
+    start_ok = first.strip(ref.WS) == K4_START
+    lines = []
+    offs = []
+    if e0 < len(s):
+        p = e0 + 1
+        while p < len(s):
+            e = _line_end(s, p)
+            lines.append(s[p:e])
+            offs.append(e)
+            p = e + 1
+    if bug:
+        # seeded oracle error: surrounding space of the end marker line is ignored
+        idx = -1
+        for i in range(len(lines)):
+            if lines[i].strip(' ') == K4_MARKER:
+                idx = i
+                break
+    else:
+        idx = ref.heredoc(lines, K4_MARKER)
+    tp = new_token_parser(s)
+    ts = tp.token_stream
+    try:
+        sdv = parse_rich_string.RichStringParser().parse_from_token_parser(tp)
+    except parse_rich_string.HereDocumentContentsParsingException:
+        # "end of file reached without finding MARKER"
+        return start_ok and idx == -1
+    except SingleInstructionInvalidArgumentException:
+        return not start_ok
+    if not start_ok or idx == -1:
+        return False
+    text = ref.lines_text(lines[:idx])
+    names = _ref_names_of_text(text)
+    if [r.name for r in sdv.references] != names:
+        return False
+    # the parser stops at the end of the line with the end marker; what follows is untouched
+    if ts.position != offs[idx] or ts.remaining_source != s[offs[idx]:]:
+        return False
+    if ts.remaining_part_of_current_line != '':
+        return False
+    if _names_defined(names):
+        got = sdv.resolve(_symbol_table(va, vb)).value_when_no_dir_dependencies()
+        if got != ref.substitute(text, _string_values(va, vb)):
+            return False
+    return True
+
+
+def k4_heredoc(s: str, va: str, vb: str) -> bool:
+    """
+    pre: _pre_k4(s, va, vb)
+    post: _
+    """
+    _install_io()
+    return ob.post(_k4_check(s, va, vb))
+
+
+def _k4_masks(tier: str):
+    q = [
+        '<<E', '<<E~~', '<<E\n$', '<<E\n$$', '<<E\n$$$', '<<E\n$$$$',
+        '<<E\n$$\nE\n$', '<<E\n$\n$\nE', '<<E\n@[A]@$\n$E\n$',
+        '<<E~\n$\nE~$', '<<E \n"$\n$"\nE\n', '<<E\n$\n \nE\n\na',
+    ]
+    t = ['<<E\n$$$$$', '<<E\n$$\n$$\nE\n$', '<<E\n$$\n$\n$E\n$', "<<E\n'$\n$'$\nE\n$", '<<E\n$@[A]@$\n$@[B]@\nE$\nE']
+    return q + (t if tier == 'thorough' else [])
+
+
+def _k4_obligations(tier: str) -> List[Ob]:
+    obs = []
+    for nm, m in _numbered('K4:', _k4_masks(tier)):
+        obs.append(Ob(
+            name=nm, fn='k4_heredoc', case=dict(mask=m), kernel='K4',
+            bound=_mask_bound(m) + '; values of the symbols A, B: every string of <= 2 characters',
+            timeout=900, real=REAL_K4, stubs=(STUB_IO,),
+            outside=('markers other than `E`; a quoted start marker',),
+            entry='RichStringParser().parse_from_token_parser(new_token_parser(source))'))
+    obs.append(Ob(name='K4:seeded-oracle-error', fn='k4_heredoc', case=dict(mask='<<E\n$$\nE', oracle_bug=True),
+                  kernel='K4', bound='seeded oracle error: space around the end marker is ignored', timeout=300,
+                  expect=ob.REFUTE, real=REAL_K4, stubs=(STUB_IO,)))
+    return obs
+
+
+# =========================================================================== K5  lists, text until end of line
+
+REAL_K5L = (
+    'exactly_lib.impls.types.list_.parse_list.parse_list_from_token_parser',
+    'exactly_lib.impls.types.list_.parse_list._MkElement',
+    'exactly_lib.impls.types.list_.generic_parser.ElementsUntilEndOfLineParser2.parse',
+    'exactly_lib.impls.types.string_.parse_string.SymbolReferenceOrStringParser.parse',
+    'exactly_lib.impls.types.string_.parse_string.parse_fragments_from_tokens__w_is_plain',
+    'exactly_lib.type_val_deps.types.list_.defs',
+    'exactly_lib.type_val_deps.types.list_.list_sdv.ListSdv.resolve',
+    'exactly_lib.type_val_deps.types.list_.list_sdv.SymbolReferenceElementSdv.resolve',
+    'exactly_lib.section_document.element_parsers.token_stream_parser.TokenParser.is_at_eol',
+    'exactly_lib.section_document.element_parsers.token_stream_parser.TokenParser.has_valid_head_matching',
+    'exactly_lib.section_document.element_parsers.token_stream.TokenStream._consume_remaining_part_of_current_line',
+    'exactly_lib.section_document.element_parsers.token_stream.TokenStream.consume',
+)
+REAL_K5T = (
+    'exactly_lib.impls.types.string_.parse_rich_string.RichStringParser.parse_from_token_parser',
+    'exactly_lib.impls.types.string_.parse_rich_string.SymbolNameOrStringRichStringParser.parse_from_token_parser',
+    'exactly_lib.impls.types.string_.parse_string.parse_rest_of_line_as_single_string',
+    'exactly_lib.impls.types.string_.syntax_elements',
+    'exactly_lib.section_document.element_parsers.token_stream.TokenStream._consume_remaining_part_of_current_line',
+    'exactly_lib.section_document.element_parsers.token_stream.TokenStream.consume',
+)
+
+
+def _is_naked_word(t, word: str) -> bool:
+    return len(t.parts) == 1 and t.parts[0][0] == ref.NAKED and t.parts[0][1] == word
+
+
+def _ref_list(s: str, values, list_values, bug: bool):
+    """Documented reading of a list: elements until end of line or an unquoted `)`; an unquoted
+    backslash at the end of a line continues the list on the next line.
+    -> ('error',) | ('ok', element strings or None if an undefined name is referenced, names, k, end)
+       k: index of the reference token that follows the list, end: offset where the list's text ends"""
+    toks, err = ref.tokenize(s)
+    elements = []
+    names = []
+    defined = True
+    k = 0
+    line_end = _line_end(s, 0)
+    end_prev = 0
+    while True:
+        if k >= len(toks):
+            if err is not None and err <= line_end:
+                return ('error',)
+            return ('ok', elements if defined else None, names, k, line_end, True)
+        t = toks[k]
+        if t.start >= line_end:
+            return ('ok', elements if defined else None, names, k, line_end, True)
+        if _is_naked_word(t, '\\') and s[t.end:_line_end(s, t.end)].strip(ref.WS) == '' and not bug:
+            # continuation (seeded oracle error: a backslash is an ordinary element)
+            e = _line_end(s, t.end)
+            k += 1
+            end_prev = e
+            if e >= len(s):
+                return ('ok', elements if defined else None, names, k, e, True)
+            line_end = _line_end(s, e + 1)
+            continue
+        if _is_naked_word(t, ')'):
+            return ('ok', elements if defined else None, names, k, end_prev, False)
+        if _is_reserved_word_token(t):
+            return ('error',)
+        frs = ref.split_refs(t.parts[0][1]) if (len(t.parts) == 1 and t.parts[0][0] == ref.NAKED) else []
+        if len(frs) == 1 and frs[0][0]:
+            # an element that is a reference: a list is spliced in
+            n = frs[0][1]
+            names.append(n)
+            if n in list_values:
+                elements = elements + list_values[n]
+            elif n in values:
+                elements = elements + [values[n]]
+            else:
+                defined = False
+        else:
+            ns = _ref_names_of_parts(t.parts)
+            names = names + ns
+            if _names_defined(ns):
+                elements = elements + [ref.denotation(t.parts, values)]
+            else:
+                defined = False
+        k += 1
+        end_prev = t.end
+        line_end = _line_end(s, t.end)
+
+
+def _pre_k5l(s: str, va: str, vb: str) -> bool:
+    if not _pre_text(s, va, vb):
+        return False
+    toks, err = ref.tokenize(s)
+    for t in toks:
+        if ref.reference_straddles(t.parts):
+            return False
+        if ob.excluded(REGION_MIXED) and ref.is_mixed_hard(t.parts) and ref.n_refs(t.string) > 0:
+            return False
+    return True
+
+
+def _k5_list_check(s: str, va: str, vb: str) -> bool:
+    from exactly_lib.impls.types.list_ import parse_list
+    from exactly_lib.section_document.element_parsers.instruction_parser_exceptions import \
+        SingleInstructionInvalidArgumentException
+    from exactly_lib.section_document.element_parsers.token_stream_parser import new_token_parser
+    bug = bool(ob.case().get('oracle_bug'))
+    want = _ref_list(s, _string_values(va, vb), {'L': [va, vb]}, bug)
+    toks, err = ref.tokenize(s)
+    tp = new_token_parser(s)
+    ts = tp.token_stream
+    try:
+        sdv = parse_list.parse_list_from_token_parser(tp)
+    except SingleInstructionInvalidArgumentException:
+        return want[0] == 'error'
+    if want[0] == 'error':
+        return False
+    _, elements, names, k, end, at_eol = want
+    if [r.name for r in sdv.references] != names:
+        return False
+    if at_eol:
+        # the list's line(s) are used up; the stream stands at the end of the last line of the list
+        if ts.position != end or ts.remaining_source != s[end:]:
+            return False
+    elif not _after_token_ok(ts, s, toks, err, k, end):
+        return False
+    if elements is not None:
+        got = sdv.resolve(_symbol_table(va, vb)).value_when_no_dir_dependencies()
+        if got != elements:
+            return False
+    return True
+
+
+def k5_list(s: str, va: str, vb: str) -> bool:
+    """
+    pre: _pre_k5l(s, va, vb)
+    post: _
+    """
+    _install_io()
+    return ob.post(_k5_list_check(s, va, vb))
+
+
+def _k5_text_check(s: str, va: str, vb: str) -> bool:
+    from exactly_lib.impls.types.string_ import parse_rich_string
+    from exactly_lib.section_document.element_parsers.token_stream_parser import new_token_parser
+    bug = bool(ob.case().get('oracle_bug'))
+    toks, err = ref.tokenize(s)
+    if not (len(toks) > 0 and _is_naked_word(toks[0], ':>')):
+        return True  # not a text-until-end-of-line (K3)
+    e0 = _line_end(s, toks[0].end)
+    text = s[toks[0].end:e0]
+    text = text if bug else text.strip(ref.WS)  # seeded oracle error: surrounding space is kept
+    names = _ref_names_of_text(text)
+    tp = new_token_parser(s)
+    ts = tp.token_stream
+    sdv = parse_rich_string.RichStringParser().parse_from_token_parser(tp)
+    if [r.name for r in sdv.references] != names:
+        return False
+    if ts.position != e0 or ts.remaining_source != s[e0:]:
+        return False
+    if _names_defined(names):
+        got = sdv.resolve(_symbol_table(va, vb)).value_when_no_dir_dependencies()
+        if got != ref.substitute(text, _string_values(va, vb)):
+            return False
+    return True
+
+
+def _pre_k5t(s: str, va: str, vb: str) -> bool:
+    c = ob.case()
+    if not _mask_ok(s, c['mask']) or not _values_ok(va, vb):
+        return False
+    # region: only a `#` glued to the `:>` marker matters (the text itself is not tokenized)
+    if ob.excluded(REGION_HASH) and ref.has_unquoted(s[:s.find(':>') + 3], '#'):
+        return False
+    return True
+
+
+def k5_text(s: str, va: str, vb: str) -> bool:
+    """
+    pre: _pre_k5t(s, va, vb)
+    post: _
+    """
+    _install_io()
+    return ob.post(_k5_text_check(s, va, vb))
+
+
+def _k5_obligations(tier: str) -> List[Ob]:
+    obs = []
+    lmasks = ['!!!', '!!!!', 'a !\n!', 'a \\~!!', '!! )!', 'a \\\n!!~!', '"a!"!!',
+              '@[L]@ !\n!', 'a @[A]@!\\\n@[L]@ !', '~= a', '!\\!\n!']
+    if tier == 'thorough':
+        lmasks += ['!!!!!', 'a !!\n!!', '! \\\n!! !', '@[L]@ "!@[A]@" !!']
+    for nm, m in _numbered('K5:list:', lmasks):
+        obs.append(Ob(
+            name=nm, fn='k5_list', case=dict(mask=m), kernel='K5',
+            bound=_mask_bound(m) + '; values of A, B: every string of <= 2 characters; L = [A, B]',
+            timeout=900, real=REAL_K5L, stubs=(STUB_IO,),
+            outside=K3_OUTSIDE + ('a list-valued symbol referenced from a token that also has quoted fragments',),
+            entry='parse_list.parse_list_from_token_parser(new_token_parser(source))'))
+    tmasks = [':>***', ':> **\n*', ':>~@[A]@*~*', ':>*"*\n"', ' :> *a* \na']
+    if tier == 'thorough':
+        tmasks += [':>*****', ':> *@[A]@*@[B]@\n*']
+    for nm, m in _numbered('K5:text:', tmasks):
+        obs.append(Ob(
+            name=nm, fn='k5_text', case=dict(mask=m), kernel='K5',
+            bound=_mask_bound(m) + '; values of A, B: every string of <= 2 characters',
+            timeout=900, real=REAL_K5T, stubs=(STUB_IO,),
+            entry='RichStringParser().parse_from_token_parser(new_token_parser(source))'))
+    obs.append(Ob(name='K5:list:seeded-oracle-error', fn='k5_list', case=dict(mask='a \\\n!', oracle_bug=True),
+                  kernel='K5', bound='seeded oracle error: a backslash at end of line is an ordinary element',
+                  timeout=300, expect=ob.REFUTE, real=REAL_K5L, stubs=(STUB_IO,)))
+    obs.append(Ob(name='K5:text:seeded-oracle-error', fn='k5_text', case=dict(mask=':> *', oracle_bug=True),
+                  kernel='K5', bound='seeded oracle error: space around the text is kept',
+                  timeout=300, expect=ob.REFUTE, real=REAL_K5T, stubs=(STUB_IO,)))
     return obs
 
 
@@ -333,14 +977,21 @@ def obligations(tier: str) -> List[Ob]:
     obs = []
     obs += _k1_obligations(tier)
     obs += _k2_obligations(tier)
+    obs += _k3_obligations(tier)
+    obs += _k4_obligations(tier)
+    obs += _k5_obligations(tier)
     return obs
 
 
 ASSUMPTIONS = [
     'io.StringIO is replaced (inside token_stream only) by a pure-Python StringIO with character offsets and no newline '
     'translation; shlex itself is the real stdlib module and is executed symbolically',
+    'the symbols A, B (strings) and L (list [A, B]) are defined; references to other names are checked up to the '
+    'reported reference list only (resolution of undefined names is C08)',
 ]
 
 OUTSIDE = [
-    'source texts longer than the stated bounds; characters outside the stated alphabets',
+    'texts longer than the stated masks; characters outside the stated alphabets (tab, CR, other Unicode)',
+    'a symbol reference that is split over two adjacent fragments of one token',
+    'quoted here-document start markers and markers other than `E`',
 ]
